@@ -33,6 +33,12 @@ def notify (n : Nat) (slots : List (Nat × Slot)) : List (Nat × Slot) :=
     | .waiter m false => if m == n then (p.1, .waiter m true) else p
     | _ => p
 
+/-- the provider answers the request for `n`: the future that sent it can finish at its next poll -/
+def openGate (n : Nat) (slots : List (Nat × Slot)) : List (Nat × Slot) :=
+  slots.map fun p => match p.2 with
+    | .owner m false => if m == n then (p.1, .owner m true) else p
+    | _ => p
+
 structure St where
   fetchedCands : List Nat := []     -- names whose candidates are cached
   fetchedDeps : List Nat := []      -- solvables whose dependencies are cached
@@ -155,9 +161,7 @@ def step (U : Universe) (peek : Bool) (st : St) : Op → St × Ans
     | some (.owner n _) => ({ st with slots := notify n (st.slots.filter (·.1 != k)) }, .word "dropped")
     | some (.waiter _ _) => ({ st with slots := st.slots.filter (·.1 != k) }, .word "dropped")
   | .candOpen n =>
-    ({ st with slots := st.slots.map fun p => match p.2 with
-        | .owner m false => if m == n then (p.1, .owner m true) else p
-        | _ => p }, .word "ok")
+    ({ st with slots := openGate n st.slots }, .word "ok")
   | .candPoll k =>
     match st.slots.lookup k with
     | none => (st, .word "none")
